@@ -792,8 +792,6 @@ def pattern_stri32_addi32(context, tree, c0, c1):
 
 
 @rvcisa.pattern("stm", "CJMPI32(reg, reg)", size=2)
-@rvcisa.pattern("stm", "CJMPI16(reg, reg)", size=2)
-@rvcisa.pattern("stm", "CJMPI8(reg, reg)", size=2)
 def pattern_cjmp(context, tree, c0, c1):
     op, yes_label, no_label = tree.value
     opnames = {"<": Blt, ">": Bgt, "==": Beq, "!=": Bne, ">=": Bge, "<=": Ble}
@@ -803,8 +801,6 @@ def pattern_cjmp(context, tree, c0, c1):
     context.emit(jmp_ins)
 
 
-@rvcisa.pattern("stm", "CJMPU8(reg, reg)", size=2)
-@rvcisa.pattern("stm", "CJMPU16(reg, reg)", size=2)
 @rvcisa.pattern("stm", "CJMPU32(reg, reg)", size=2)
 def pattern_cjmpu(context, tree, c0, c1):
     op, yes_label, no_label = tree.value
